@@ -11,7 +11,7 @@
    the correspondence check).  [retained_mask k env] = diag(1 if S_i > tol else 0): the
    code zeroes the components whose eigenvalue does not exceed tol. *)
 From mathcomp Require Import all_ssreflect all_algebra.
-From Verif Require Import MExp MExpMx PCovR PCovRP PCovRProg PCovRExample C14Thm.
+From Verif Require Import MExp MExpMx PCovR PCovRP PCovRProg KyFan C14Thm C04Thm PCovRNested PCovRExample.
 Import GRing.Theory Num.Theory.
 Local Open Scope ring_scope.
 
@@ -127,6 +127,52 @@ Theorem C14_score :
     (eval_mx env (score_prog n m p k sp Z Yz)) ord0 ord0 = - (lx + ly).
 Proof. exact score_formula. Qed.
 Print Assumptions C14_score.
+
+(* ---- nestedness (full solver): the oracle answer for k components is the truncation
+   U[:, :k], S[:k], Vt[:k] of the answer for k+1 (as _decompose_full does); then the
+   projectors for k are the first k columns / rows of those for k+1, both spaces ------------ *)
+Theorem C14_nested_hypothesis :
+  forall (F : rcfType) (n m k : nat) (env : env_mx F),
+    nested_oracle n m k env <->
+    [/\ e_Vs n k env = lsubmx (e_Vs n (k + 1) env), e_Vf m k env = lsubmx (e_Vf m (k + 1) env)
+      & e_S k env = usubmx (e_S (k + 1) env)].
+Proof. by []. Qed.
+Print Assumptions C14_nested_hypothesis.
+
+Theorem C14_nested :
+  forall (F : rcfType) (n m p k : nat) (env : env_mx F) (sp : bool),
+    nested_oracle n m k env ->
+    [/\ eval_mx env (pxt_prog n m p k sp) = lsubmx (eval_mx env (pxt_prog n m p (k + 1) sp)),
+        eval_mx env (ptx_prog n m k sp) = usubmx (eval_mx env (ptx_prog n m (k + 1) sp))
+      & eval_mx env (pty_prog n m p k sp) = usubmx (eval_mx env (pty_prog n m p (k + 1) sp))].
+Proof. exact nested_all. Qed.
+Print Assumptions C14_nested.
+
+(* ... so the training losses |X - inverse_transform(T)|^2 and |Y - predict(T=T)|^2 never
+   increase from k to k+1 (Pythagoras on the orthonormal eigenvectors) *)
+Theorem C14_losses_monotone_in_k :
+  forall (F : rcfType) (n m p k : nat) (env : env_mx F),
+    centred n m env -> nested_oracle n m k env -> fit_oracle n m p (k + 1) env true ->
+    (forall i, e_tol env < e_S (k + 1) env i 0) ->
+    train_loss_x n m p env (k + 1) <= train_loss_x n m p env k
+    /\ train_loss_y n m p env (k + 1) <= train_loss_y n m p env k.
+Proof. exact losses_monotone_in_k. Qed.
+Print Assumptions C14_losses_monotone_in_k.
+
+Theorem C14_train_loss_meaning :
+  forall (F : rcfType) (n m p : nat) (env : env_mx F) (j : nat),
+    let T := transform_prog n m p j true (eX n m) in
+    train_loss_x n m p env j = fro2 (e_X n m env - eval_mx env (inverse_prog n m j true T))
+    /\ train_loss_y n m p env j = fro2 (e_Y n p env - eval_mx env (predict_t_prog n m p j true T)).
+Proof. by []. Qed.
+Print Assumptions C14_train_loss_meaning.
+
+Example C14_nonvacuous_nested :
+  forall (F : rcfType) (mix : F), exists env : env_mx F,
+    [/\ nested_oracle 2 1 0 env, fit_oracle 2 1 1 (0 + 1) env true, centred 2 1 env
+      & forall i, e_tol env < e_S (0 + 1) env i 0].
+Proof. exact (fun F mix => ex_intro _ (ex_env mix) (ex_nested mix)). Qed.
+Print Assumptions C14_nonvacuous_nested.
 
 (* ---- the hypotheses are satisfiable, non-trivially, in both spaces, over every field and
    for every value of the mixing ------------------------------------------------------------ *)
